@@ -271,12 +271,14 @@ class RAMEmitter(Emitter):
     def get_data(self, query: Optional[list] = None) -> dict:
         """ Return the accumulated timeseries history of "emitted" data. """
         if query:
+            # Only skip paths that are absent, not falsy values.
+            missing = object()
             returned_data = {}
             for t, data in self.saved_data.items():
                 paths_data = []
                 for path in query:
-                    datum = get_in(data, path)
-                    if datum:
+                    datum = get_in(data, path, missing)
+                    if datum is not missing:
                         path_data = (path, datum)
                         paths_data.append(path_data)
                 returned_data[t] = paths_to_dict(paths_data)
